@@ -49,8 +49,39 @@ def _lin(draw):
     return t
 
 
+def _rawp(draw):
+    """a combination built with the documented constructor Point(is_leaf=False, decomposition_dict=...): weights are kept as
+    given, explicit zeros included (arithmetic prunes them, the constructor does not)"""
+    ks = draw(st.lists(st.integers(0, c06.NP - 1), min_size=1, max_size=4, unique=True))
+    return ["rawp", [[k, draw(st.sampled_from([1, 0, -1, 2, 0, 0.5, -2.5]))] for k in ks]]
+
+
+def _rawe(draw):
+    """Expression(is_leaf=False, decomposition_dict=...) with mirrored / diagonal keys and explicit zero weights"""
+    items, seen = [], set()
+    for _ in range(draw(st.integers(1, 6))):
+        kind = draw(st.sampled_from(["G", "G", "G", "F", "1"]))
+        i, j = draw(st.integers(0, c06.NP - 1)), draw(st.integers(0, c06.NP - 1))
+        if kind == "G" and draw(st.booleans()) and items and items[-1][0] == "G":
+            i, j = items[-1][2], items[-1][1]                       # the mirror of the previous key
+        if kind == "F":
+            i, j = draw(st.integers(0, c06.NE - 1)), 0
+        key = (kind, i, j) if kind != "1" else ("1",)
+        if key in seen:
+            continue
+        seen.add(key)
+        items.append([kind, i, j, draw(st.sampled_from([1, 0, -1, 2, 0, 0.5, -2.5]))])
+    return ["rawe", items]
+
+
 @st.composite
 def _translate(draw, depth):
+    if draw(st.integers(0, 3)) == 0:
+        # shapes that only the constructors produce: explicit zero coefficients next to mirrored keys
+        tree = _rawe(draw) if draw(st.booleans()) else ["mul", _rawp(draw), _rawp(draw)]
+        for _ in range(draw(st.integers(0, 1))):
+            tree = [draw(st.sampled_from(["add", "sub"])), tree, draw(st.one_of(st.just(_rawe(draw)), c06._E(1)))]
+        return {"kind": "translate", "tree": tree, "seed": draw(st.integers(0, 2 ** 31 - 1))}
     if draw(st.integers(0, 2)) == 0:
         # products of linear combinations: mirrored keys (p,q) and (q,p) with unequal coefficients, diagonal terms
         tree = ["mul", _lin(draw), _lin(draw)]
@@ -230,10 +261,28 @@ def tree_has_mirror(e):
     return any((b, a) in s and a != b for a, b in s)
 
 
+class RawBuilder(c06.Builder):
+    def build(self, t):
+        from PEPit import Point, Expression
+        if t[0] == "rawp":
+            return Point(is_leaf=False, decomposition_dict={self.points[k]: w for k, w in t[1]})
+        if t[0] == "rawe":
+            d = {}
+            for kind, i, j, w in t[1]:
+                if kind == "G":
+                    d[(self.points[i], self.points[j])] = w
+                elif kind == "F":
+                    d[self.exprs[i]] = w
+                else:
+                    d[1] = w
+            return Expression(is_leaf=False, decomposition_dict=d)
+        return super().build(t)
+
+
 def check_translate(case, ctx):
     from PEPit.tools.expressions_to_matrices import expression_to_matrices, expression_to_sparse_matrices
     from PEPit import Point, Expression
-    b = c06.Builder(ctx)
+    b = RawBuilder(ctx)
     # a few extra leaves created afterwards so that counters are not just 0..3
     e = b.build(case["tree"])
     if not isinstance(e, Expression):
@@ -296,6 +345,8 @@ def check_translate(case, ctx):
             ctx.fail("sparse-translation-wrong", "sparse translation evaluates to %r, expression denotes %r" % (sparse, want))
             break
     mirror = tree_has_mirror(e)
+    if any(w == 0 for w in e.decomposition_dict.values()):
+        ctx.label("translate:explicit-zero-weight")
     ctx.label("translate:mirrored" if mirror else "translate:plain")
     ctx.nontrivial(mirror or len(fun) >= 4)
 
